@@ -33,6 +33,8 @@ MAINS = {
     # the firmware idiom of a critical section: master enable cleared and set again by memory-addressed writes, so that
     # requests keep arriving exactly at the boundaries where bit 7 changes
     "toggle": bytes([0x32, 0x71, 0xFB, 0x7F, 0x00, 0x32, 0x79, 0xFB, 0x80, 0x00, 0x13, 0x0C]),
+    # the same critical section written with 16-bit stores to (FA): IMR is the SECOND byte of the store
+    "toggle_wide": bytes([0x32, 0xCD, 0xFA, 0x00, 0x0F, 0x00, 0x32, 0xCD, 0xFA, 0x00, 0x8F, 0x00, 0x13, 0x0E]),
     # software interrupts from the main loop: the same handler is entered by IR and by hardware delivery
     "swi": bytes([0x00, 0xFE, 0x00, 0x00, 0x13, 0x06]),
 }
